@@ -18,7 +18,7 @@ LOOKBEHIND = {'pepsin ph1.3', 'pepsin ph2.0', 'staphylococcal peptidase i', 'pro
               'factor xa', 'enterokinase', 'granzyme b'} | {f'caspase {k}' for k in range(1, 11)}
 
 MODES = ['base', 'base', 'nc', 'nf', 'startnf', 'sec', 'multi', 'rules', 'exc', 'collapse', 'rules',
-         'adj', 'stop', 'sect', 'w2f', 'lowmass', 'stop', 'as', 'as']
+         'adj', 'stop', 'sect', 'w2f', 'lowmass', 'stop', 'as', 'as', 'asfs']
 
 
 def tryptic_protein(r, n_pep, alphabet=refgen.PEPTIDE_AAS, plen=(3, 8)):
@@ -143,10 +143,10 @@ def make_case(r, mode, work, idx, tier):
         secs = [u5 + 3 * k for k, a in enumerate(prot) if a == 'U']
         b.add_gene(seq, r.choice([1, -1]), r.randrange(1, 3), True, u5, u5 + len(cds) + 3, secs, (), prot)
         ref = b.finish()
-    elif mode == 'as':
+    elif mode in ('as', 'asfs'):
         # multi-exon transcript with introns long enough to donate inserted / substituted segments
         b = refgen.Builder(r)
-        if r.random() < 0.6:
+        if mode == 'asfs' or r.random() < 0.6:
             seq, cs, ce, secs, prot = refgen.make_coding_tx_seq(r, r.randrange(24, 40), r.randrange(3, 10), r.randrange(6, 16))
             b.add_gene(seq, r.choice([1, -1]), r.randrange(3, 5), True, cs, ce, secs, (), prot, intron=(10, 24),
                        flank=(r.randrange(0, 6), r.randrange(0, 6)))
@@ -195,6 +195,21 @@ def make_case(r, mode, work, idx, tier):
             cand = keep
             vs = cand + [v for v in vs if not any(x['start'] <= v['end'] and v['start'] <= x['end'] for x in cand)]
         asr = []
+        if mode == 'asfs':
+            # an inserted intronic segment that carries a frameshifting indel of its own, and substitutions downstream of it in
+            # the transcript (they are then read in the shifted frame)
+            asr = cvgen.as_records(r, ref, t, n=1, min_tx_pos=(t.cds_start + 3) if t.coding else 3, nested_p=1.0,
+                                   kinds=['ins_full', 'ins_part'], nested_fs=True)
+            seq_ = t.seq(ref.chroms[ref.genes[t.gene].chrom])
+            vs = []
+            if asr:
+                lo_ = asr[0]['var']['end'] + 1
+                for _ in range(r.randrange(1, 4)):
+                    if lo_ < len(seq_) - 2:
+                        v_ = cvgen.small_variant(r, ref, t, seq_, r.randrange(lo_, len(seq_) - 1), 'SNV')
+                        if v_ and not cvgen.overlaps_any(v_, vs) and not any(x['start'] <= v_['end'] and v_['start'] <= x['end'] for x in vs):
+                            vs.append(v_)
+            as_lines += asr
         if mode == 'as':
             asr = cvgen.as_records(r, ref, t, n=r.choice([1, 1, 2]), min_tx_pos=(t.cds_start + 3) if t.coding else 3,
                                    nested_p=0.6 if os.environ.get('VERIF_NESTED') == '1' else 0.0)
@@ -306,7 +321,7 @@ def parse_sets(v):
 
 def campaign(rep, tier, work, salt='cv'):
     r = env.rng(salt)
-    n = 510 if tier == "quick" else 13600
+    n = 30 * len(MODES) if tier == "quick" else 760 * len(MODES)
     items = []
     for i in range(n):
         it = make_case(r, MODES[i % len(MODES)], work, i, tier)
